@@ -105,6 +105,12 @@ def run(prog, cfg, target=None, action='abort', second=None, inline=False,
   L = lab()
   eng, H, td = L['engine'], L['H'], L['td']
   td.Test.HANDLED_SIGINT_ONCE = False
+  # (an earlier, deliberately hung schedule may have been abandoned inside the
+  # SIGINT handler: in a real process that is the end, here the next case must
+  # not look like a SIGINT nested in that handler)
+  for flag in ('_HANDLING_SIGINT', '_SIGINT_PENDING'):
+    if hasattr(td.Test, flag):
+      setattr(td.Test, flag, False)
   # Every case starts from a clean process-level registry (a test left behind
   # by an earlier, deliberately hung schedule must not receive this abort).
   for k in list(td.Test.TEST_INSTANCES.keys()):
